@@ -1134,6 +1134,9 @@ func (vc *funcVC) havoc(st, pre *state, ms *modset, why string, rootTerm func(ss
 		if sh.any {
 			continue
 		}
+		if strings.HasPrefix(k, "F_") {
+			continue // a field array that is written gets a fresh version; other fields are other arrays
+		}
 		if !strings.HasPrefix(k, "H_") {
 			// map arrays: only the maps named by the roots may have changed
 			var guard []string
@@ -1197,6 +1200,10 @@ func (vc *funcVC) ensureKey(k string) bool {
 			c.heapSorts[k] = (&trans{c: c}).resolveType(gt).sort
 			return true
 		}
+	}
+	if fid, ok := vc.ma.keyFids[k]; ok {
+		c.fieldKeyByID(fid)
+		return true
 	}
 	if t, ok := vc.ma.keyTypes[k]; ok {
 		if _, isMap := t.Underlying().(*types.Map); isMap && !strings.HasPrefix(k, "H_") {
